@@ -1,0 +1,53 @@
+//go:build verif
+// +build verif
+
+package index
+
+import "sync/atomic"
+
+// VerifTraceFunc receives protocol events of a Writer in verification builds:
+//   kind "root"      : a new root was installed (called under rootLock); snap may be nil on close
+//   kind "grab"      : the persister took snap and x waiting acknowledgements (under rootLock)
+//   kind "persisted" : persistSnapshot returned for snap; x = 0 on success, 1 on error
+type VerifTraceFunc func(w *Writer, kind string, snap *Snapshot, x uint64)
+
+var verifTraceFn atomic.Value // of VerifTraceFunc
+
+// SetVerifTrace installs f (nil removes it). Install before opening writers.
+func SetVerifTrace(f VerifTraceFunc) { verifTraceFn.Store(f) }
+
+func verifTrace(w *Writer, kind string, snap *Snapshot, x uint64) {
+	if f, ok := verifTraceFn.Load().(VerifTraceFunc); ok && f != nil {
+		f(w, kind, snap, x)
+	}
+}
+
+// VerifEpoch is the epoch of the snapshot.
+func (i *Snapshot) VerifEpoch() uint64 { return i.epoch }
+
+// VerifCreator names the introduction that built the snapshot.
+func (i *Snapshot) VerifCreator() string { return i.creator }
+
+// VerifRefs is the current reference count of the snapshot.
+func (i *Snapshot) VerifRefs() int64 {
+	i.m.Lock()
+	defer i.m.Unlock()
+	return i.refs
+}
+
+// VerifSegmentRefs returns, per segment of the snapshot, the reference count
+// of the segment wrapper's closer (-1 when the segment has no counted closer).
+func (i *Snapshot) VerifSegmentRefs() []int64 {
+	rv := make([]int64, len(i.segment))
+	for j, s := range i.segment {
+		rv[j] = -1
+		if s != nil && s.segment != nil {
+			if c, ok := s.segment.refCounter.(*closeOnLastRefCounter); ok {
+				c.m.Lock()
+				rv[j] = c.refs
+				c.m.Unlock()
+			}
+		}
+	}
+	return rv
+}
